@@ -971,9 +971,9 @@ class TransactSqlDialect(AnsiSqlDialect):
             limit = sql_ansi_type[1]
             assert limit >= 0, "length=%r" % limit
 
-            if limit <= MAX_TINYINT:
-                result = ("tinyint", limit)
-            elif limit <= MAX_SMALLINT:
+            # NOTE: tinyint is unsigned but the limit does not tell if the range includes negative
+            # numbers, so the smallest type to use is smallint.
+            if limit <= MAX_SMALLINT:
                 result = ("smallint", limit)
             elif limit <= MAX_INTEGER or limit is None:
                 result = ("int", limit)
